@@ -294,6 +294,7 @@ def judge_instance(acc, dname, dic, schema, mt, msgdef, inst, label, cid, npos, 
             return
     if rnd.random() < 0.15:
         header_faults(acc, dname, dic, schema, mt, inst, cid, rnd)
+        header_structure_faults(acc, dname, dic, schema, mt, inst, cid, rnd)
     faults = fault_positions(dic, msgdef, inst, rnd)
     for f in pick_positions(faults, npos, rnd):
         acc.oracle("fault-rejected")
@@ -339,6 +340,74 @@ def header_faults(acc, dname, dic, schema, mt, inst, cid, rnd):
         if v != "reject":
             acc.violation(f"bad-header-value-accepted" if v == "accept" else f"bad-header-value:{v}",
                           f"{dname} {mt}: header field {node['name']}({tag})={val!r} -> {v}", {"dict": dname, "msgtype": mt, "tag": tag, "value": val}, cid)
+            return
+
+
+def header_structure_faults(acc, dname, dic, schema, mt, inst, cid, rnd):
+    """header members are validated wherever they appear: (a) a message that carries header fields but no BeginString (what the
+    application hands to send_msg / what FIXTester builds), (b) the header's repeating group NoHops like any other group"""
+    from asyncfix.message import FIXContainer
+    if not (mt in (dic.by_tag.get("35", {}).get("enum") or [mt])):
+        return
+    # (a)
+    for tag, val in HEADER_FAULTS:
+        if tag not in dic.header_tags or tag not in dic.by_tag or tag in ("8", "9", "35"):
+            continue
+        node = dic.by_tag[tag]
+        if val and ((node["enum"] and val in node["enum"]) or (not node["enum"] and lexical.zone(node["type"], val) != "reject")):
+            continue
+        try:
+            good = to_message(dic, mt, inst, header=False)
+            good.set(tag, good_value(node, rnd), replace=True)
+            m = to_message(dic, mt, inst, header=False)
+            m.set(tag, val, replace=True)
+        except Exception:
+            continue
+        if verdict(schema, good) != "accept":
+            acc.add("header_field_without_beginstring_baseline_not_accepted")
+            continue
+        acc.oracle("fault-rejected")
+        acc.addmap("faults_by_class", "bad-header-value-without-beginstring")
+        acc.case_disjoint(nontrivial=True)
+        v = verdict(schema, m)
+        if v != "reject":
+            acc.violation("bad-header-value-accepted:message-without-beginstring" if v == "accept" else f"bad-header-value:{v}",
+                          f"{dname} {mt}: header field {node['name']}({tag})={val!r} in a message without tag 8 -> {v}", {"dict": dname, "msgtype": mt, "tag": tag, "value": val}, cid)
+            return
+    # (b)
+    if not all(t in dic.header_tags for t in ("627", "628", "629", "630")):
+        return
+
+    def with_hops(items):
+        m = to_message(dic, mt, inst, header=True)
+        if items == "plain":
+            m.set("627", "1", replace=True)
+            return m
+        cs = []
+        for it in items:
+            c = FIXContainer()
+            for t, v_ in it:
+                c.set(t, v_)
+            cs.append(c)
+        m.set_group("627", cs)
+        return m
+    ok_item = [("628", "HOP1"), ("629", "20240102-12:30:45"), ("630", "7")]
+    if verdict(schema, with_hops([ok_item, ok_item[:1]])) != "accept":
+        acc.violation("valid-instance-rejected:header-group", f"{dname} {mt}: a header with a well-formed NoHops group is rejected", {"dict": dname, "msgtype": mt}, cid)
+        return
+    for label, items in (("group-given-as-plain-field", "plain"), ("foreign-member-in-item", [ok_item + [("1", "acct")]]), ("group-members-swapped", [[ok_item[1], ok_item[0]]]),
+                         ("item-without-first-member", [ok_item[1:]]), ("bad-value", [[("628", "HOP1"), ("630", "seven")]]), ("group-without-items", [])):
+        acc.oracle("fault-rejected")
+        acc.addmap("faults_by_class", "header-group:" + label)
+        acc.case_disjoint(nontrivial=True)
+        try:
+            m = with_hops(items)
+        except Exception:
+            acc.add("fault_not_constructible")
+            continue
+        v = verdict(schema, m)
+        if v != "reject":
+            acc.violation(f"{label}-accepted:header-group" if v == "accept" else f"{label}:{v}", f"{dname} {mt}: NoHops with {label} -> {v}", {"dict": dname, "msgtype": mt, "fault": label}, cid)
             return
 
 
